@@ -137,5 +137,5 @@ Example matchers_nonvacuous :
   node_match [9] (Some (Some 1, [Some 1])) (Some (Some 1, [Some 1])) = true /\
   node_match [9] (Some (None, [None])) (Some (Some 9, [Some 9])) = true /\       (* missing label = default "*" *)
   node_match [9] (Some (Some 1, [Some 1])) (Some (Some 2, [Some 2])) = false /\
-  edge_match [None] [None] = true /\ edge_match [None] [Some 2%Z] = false /\ edge_match_mtg [None] [None] = false.
+  edge_match [None] [None] = true /\ edge_match [None] [Some 2%Z] = false /\ edge_match_mtg [None] [None] = true /\ edge_match_mtg [None] [Some 2%Z] = false.
 Proof. repeat split; reflexivity. Qed.
